@@ -197,6 +197,9 @@ class TrimeshPolyhedron(Domain):
         bounds = self.bounding_box(params, device=device)
         points = self._point_grid_in_bounding_box(n, bounds, device)
         points_inside = self._get_points_inside(points)
+        if len(points_inside) > n:  # the box grid can contain too many points
+            keep = torch.randperm(len(points_inside), device=device)[:n]
+            points_inside = points_inside[keep]
         final_points = Sphere._append_random(self, points_inside, n, params, device)
         return Points(final_points, self.space)
 
